@@ -686,6 +686,12 @@ class Ev:
             raise Unsupported("negation")
         if isinstance(e, ast.Call):
             return self.call(e, env)
+        if isinstance(e, ast.BinOp) and isinstance(e.op, ast.Add):
+            # constant folding only: "prefix" + "/" where both sides are known strings (or ints)
+            a, b = self.expr(e.left, env), self.expr(e.right, env)
+            if (isinstance(a, str) and isinstance(b, str)) or (isinstance(a, int) and isinstance(b, int) and not isinstance(a, bool) and not isinstance(b, bool)):
+                return a + b
+            raise Unsupported("non-constant + in " + ast.unparse(e)[:60])
         if isinstance(e, ast.ListComp):
             g = e.generators[0]
             it = self.expr(g.iter, env)
